@@ -133,7 +133,7 @@ class Explorer:
         self.z = Z3Ctx()
         self.stats = {
             "paths": 0, "paths_completed": 0, "paths_infeasible": 0, "paths_unsupported": 0,
-            "paths_error": 0, "branch_queries": 0, "branch_unknown": 0,
+            "paths_error": 0, "paths_out_of_bound": 0, "branch_queries": 0, "branch_unknown": 0,
             "obligations": 0, "discharged_syntactic": 0, "discharged_solver": 0,
             "refuted": 0, "inconclusive": 0, "solver_s": 0.0, "reached": 0, "discharged_linear_abstraction": 0,
         }
@@ -381,6 +381,8 @@ class Explorer:
                     self.stats["paths_completed"] += 1
                 except PathInfeasible:
                     self.stats["paths_infeasible"] += 1
+                except alg.OutOfBound:
+                    self.stats["paths_out_of_bound"] += 1
                 except Unsupported as e:
                     self.stats["paths_unsupported"] += 1
                     if len(self.unsupported) < 20:
